@@ -19,7 +19,7 @@ fn meta(ctx: &Ctx) -> Meta {
     Meta {
         level: "exploration",
         rule: format!(
-            "seeded builder configurations with a source date, biased to 2-6 distinct non-root owners and groups and file mtimes on both sides of the source date, each built {} times in this process and in {} freshly started processes (different hash seeds by construction, different TZ, working directory and environment); unsigned and signed with Ed25519 / ECDSA-P256 / RSA-4096 (deterministic schemes). Oracle: the set of distinct output byte strings per configuration must have size 1; BUILDTIME, every FILEMTIMES item, the c_mtime of every entry of the decompressed archive and the OpenPGP signature creation time (read with the pgp crate) must be <= the source date. distinct_nontrivial = distinct configurations whose repeated builds were compared",
+            "seeded builder configurations with a source date, biased to 2-6 distinct non-root owners and groups and file mtimes on both sides of the source date, each built {} times in this process and in {} freshly started processes (different hash seeds by construction, different TZ, working directory and environment; for a quarter of the configurations and all gzip ones the last build starts >= 1.1 s after the first); unsigned and signed with Ed25519 / ECDSA-P256 / RSA-4096 (deterministic schemes). Oracle: the set of distinct output byte strings per configuration must have size 1; BUILDTIME, every FILEMTIMES item, the c_mtime of every entry of the decompressed archive, the MTIME field of a gzip payload and the OpenPGP signature creation time (read with the pgp crate) must be <= the source date. distinct_nontrivial = distinct configurations whose repeated builds were compared",
             ctx.tier.pick(5, 6),
             ctx.tier.pick(3, 4)
         ),
@@ -86,6 +86,14 @@ fn timestamps_ok(bytes: &[u8], sd: u32, signed: bool) -> Vec<(String, String)> {
     }
     // the archive carries its own copy of every file time (c_mtime of each newc entry)
     let comp = p.hdr.get_str(bytes, tag::PAYLOADCOMPRESSOR).map(|c| String::from_utf8_lossy(&c).into_owned());
+    // a gzip member header has a time field of its own (MTIME, bytes 4..8, little endian)
+    let pl = &bytes[p.payload_start..];
+    if pl.len() >= 10 && pl[0] == 0x1f && pl[1] == 0x8b {
+        let t = u32::from_le_bytes([pl[4], pl[5], pl[6], pl[7]]);
+        if t > sd {
+            v.push(("payload-gzip-mtime-after-source-date".to_string(), format!("the gzip header of the payload carries the time {t} which is later than the source date {sd}")));
+        }
+    }
     match crate::model::cpio::decompress(comp.as_deref(), &bytes[p.payload_start..]) {
         Ok(archive) => {
             let sizes = crate::model::codec::decode_files(bytes, &p.hdr).map(|f| f.sizes).unwrap_or_default();
@@ -176,6 +184,7 @@ fn run(ctx: &Ctx, rep: &Report) {
         let mut outputs: BTreeMap<String, String> = BTreeMap::new(); // hash -> where
         let mut first: Option<Vec<u8>> = None;
         let mut local: BTreeMap<String, u64> = BTreeMap::new();
+        let t_first = std::time::Instant::now();
         for r in 0..reps_in {
             rep.eval(1);
             // odd repetitions run on a freshly spawned thread (thread-local state must not matter)
@@ -210,6 +219,16 @@ fn run(ctx: &Ctx, rep: &Report) {
         std::fs::write(&cfgp, serde_json::to_vec(&cfg).unwrap()).unwrap();
         for r in 0..reps_proc {
             rep.eval(1);
+            // the wall clock must not leak into the output: for a quarter of the configurations (and
+            // every gzip one) the last build starts at least 1.1 s after the first
+            let is_gzip = cfg.compression.as_ref().map(|c| c.0 == "gzip").unwrap_or(false);
+            if r + 1 == reps_proc && (i % 4 == 0 || is_gzip) {
+                let el = t_first.elapsed();
+                if el < std::time::Duration::from_millis(1100) {
+                    std::thread::sleep(std::time::Duration::from_millis(1100) - el);
+                }
+                *local.entry("configs.last_build_over_1s_after_first".into()).or_insert(0) += 1;
+            }
             let out = dir.join(format!("out{r}"));
             let cwd = [Path::new("/"), dir.as_path(), Path::new("/tmp"), src.as_path()][r % 4];
             let tz = ["UTC", "Pacific/Kiritimati", "America/Los_Angeles", "Asia/Kolkata"][r % 4];
